@@ -38,6 +38,10 @@ UNIT = dict(
              pattern="(self.0.get())(data)", expect=1, why="the handler runs after get() has returned its clone: replacing the handler from inside the handler cannot deadlock, and the invocation in progress keeps the old one"),
         dict(id="C13+C15.structure.handler_call_takes_no_lock_itself", file=CH, impl="impl<T, U> ChangeableFn<T, U> where T: Send, U: Send,", count_in_fn="call", token_regex="read|write|lock", expect=0,
              why="see above"),
+        dict(id="C13+C15.structure.a_cloned_handler_cell_is_the_same_cell", file=CH, impl="impl<T, U> Clone for ChangeableFn<T, U>", count_in_fn="clone", pattern="Self(Changeable::clone(&self.0))", expect=1,
+             why="the worker tasks hold clones of the configuration's cells (error_hook gets config.error_handler.clone()): a clone must share the cell, or a handler replaced at run time never reaches the worker"),
+        dict(id="C13+C15.structure.changeable_is_a_shared_cell", file=CH, count_in_file=True, pattern="#[derive(Clone)] pub struct Changeable<T>(Arc<RwLock<T>>);", expect=1,
+             why="Changeable's derived Clone clones the Arc, not the value"),
         dict(id="C13+C15.structure.changeable_replace_guard_is_a_temporary", file=CH, impl="impl<T> Changeable<T> where T: Clone + Send,", count_in_fn="replace", pattern="let", expect=0,
              why="the write guard is dropped at the end of the assignment"),
     ],
